@@ -323,11 +323,16 @@ type PartSetReader struct {
 }
 
 func NewPartSetReader(parts []*Part) *PartSetReader {
-	return &PartSetReader{
+	psr := &PartSetReader{
 		i:      0,
 		parts:  parts,
-		reader: bytes.NewReader(parts[0].Bytes),
+		reader: bytes.NewReader(nil),
 	}
+	// A part set of empty data has no parts; it reads as zero bytes.
+	if len(parts) > 0 {
+		psr.reader = bytes.NewReader(parts[0].Bytes)
+	}
+	return psr
 }
 
 func (psr *PartSetReader) Read(p []byte) (n int, err error) {
